@@ -357,9 +357,32 @@ def unit_explore(arg):
     return p
 
 
+def unit_stateful(arg):
+    """unbounded search with state matching (no preemption bound), scheduling points only at lines that touch shared state"""
+    name, cap = arg
+    p = Part()
+
+    def on_exec(x):
+        p.count('evaluations')
+        p.count('stateful_schedules')
+        p.outcome(('stateful', name, x.obs['launches'], tuple(x.obs['ended']), tuple(map(tuple, x.obs['excs'])), tuple(x.obs['results']), x.obs['deadlock']))
+        for sig, what in x.obs['bad']:
+            p.violation('%s @ %s' % (sig, name), '%s; scenario [%s], schedule %r (unbounded stateful search)' % (what, name, x.choices),
+                        {'kind': 'schedule', 'scenario': name, 'choices': x.choices, 'deviations': x.deviations, 'stateful': True})
+
+    n, pairs, left = e1.explore_stateful(lambda ch: run_scenario(name, ch, stateful=True), on_exec=on_exec, max_exec=cap)
+    p.count('stateful_state_choice_pairs', pairs)
+    p.notes['stateful:' + name] = {'schedules': n, 'state_choice_pairs': pairs, 'closed': not left}
+    p.count('stateful_closed' if not left else 'stateful_capped')
+    return p
+
+
 def replay(w):
     if w['kind'] == 'real':
         return real_case(w['case'])
+    if w.get('stateful'):
+        x = e1.run_once(lambda ch: run_scenario(w['scenario'], ch, stateful=True), w['choices'])
+        return [('%s @ %s' % (sig, w['scenario']), what) for sig, what in x.obs['bad']]
     x = e1.run_once(lambda ch: run_scenario(w['scenario'], ch), w['choices'])
     return [('%s @ %s' % (sig, w['scenario']), what) for sig, what in x.obs['bad']]
 
@@ -532,6 +555,13 @@ def run(ctx):
         kids = e1.children(x, 0, b)
         tests = [[]] + ([kids[-1]] if kids else [])
         e1.self_test(body, tests, same=lambda a, b: a == b)
+    # unbounded stateful search (no preemption bound) for the scenarios whose state space closes
+    if quick:
+        st = [('prepare;close', 3000), ('prepare;call;close', 3000), ('call;close;call', 3000), ('connect-retry: prepare;close', 3000)]
+    else:
+        st = [(n, 40000) for n in ('prepare;close', 'prepare;call;close', 'call;close;call', 'prepare;close;prepare;call;close', 'connect-retry: prepare;close',
+                                   'call || call', 'prepare || close', 'prepare || call', 'prepare;call || call', 'launch-failure: prepare;call')]
+    ctx.pmap(unit_stateful, st, chunksize=1)
     # real subprocess part
     ctx.pmap(unit_real, REAL_CASES, jobs=8)
     c = ctx.counters
@@ -545,6 +575,7 @@ def run(ctx):
         'bound_completed': {name: b for name, b in plan},
         'schedules_by_preemptions': {k[len('schedules_dev'):]: int(v) for k, v in c.items() if k.startswith('schedules_dev')},
         'scenarios': len(plan),
+        'stateful_unbounded_search': {k[len('stateful:'):]: v for k, v in ctx.notes.items() if k.startswith('stateful:')},
         'real_subprocess_cases': REAL_CASES,
     })
     ctx.counters['distinct_nontrivial'] = len(ctx.outcomes)
@@ -554,5 +585,6 @@ def run(ctx):
         'Popen/Client/time/Lock/Thread are fakes: a launched server "ends" when it receives a close request or its connection is closed',
         'states/transitions = scheduling choice points met over all schedules (stateless search has no state table)',
         'close() concurrent with a call of another thread is outside the statement and only checked for deadlock',
+        'unbounded stateful search: scheduling points only at lines whose statement mentions self/Popen/Client/time/Thread/Lock (other lines compute on locals and commute); the state key is the per-thread stack of (function, line, simple locals) plus the shared client/world state; scenarios marked closed=false hit the execution cap and are NOT exhaustive',
         'real-subprocess cases assert "exits within 10 s" (server polls once per second)',
     ]
